@@ -55,7 +55,7 @@ func TestC12Shutdown(t *testing.T) {
 		cfg := baseConfig()
 		h := newH(rt, "C12", sim.Options{Config: cfg})
 		state := rapid.SampledFrom([]string{"never-connected", "dialing", "awaiting-connack", "resending", "online-idle", "online-holding",
-			"writers-parked", "offline-after-failed-connect", "reconnect-pending", "already-closed", "remote-closed-unnoticed"}).Draw(rt, "state")
+			"writers-parked", "offline-after-failed-connect", "reconnect-pending", "already-closed", "remote-closed-unnoticed", "next-write-fails"}).Draw(rt, "state")
 		h.Act("state %s", state)
 		nontrivial := state != "online-idle" && state != "never-connected"
 		defer func() { h.finish(nontrivial) }()
@@ -108,7 +108,7 @@ func TestC12Shutdown(t *testing.T) {
 			})
 			h.App.Step()
 			h.SettleReader("resend parked")
-		case "online-idle", "online-holding", "writers-parked", "reconnect-pending", "remote-closed-unnoticed":
+		case "online-idle", "online-holding", "writers-parked", "reconnect-pending", "remote-closed-unnoticed", "next-write-fails":
 			h.App.Step()
 			h.SettleReader("connect")
 			if state == "online-holding" {
@@ -123,6 +123,11 @@ func TestC12Shutdown(t *testing.T) {
 			}
 			if state == "writers-parked" {
 				h.armWrite(rapid.IntRange(0, 6).Draw(rt, "parkOff"), sim.WPark)
+			}
+			if state == "next-write-fails" {
+				// whoever writes next (DISCONNECT itself, if no request comes
+				// first) meets a peer which stopped draining, or a reset
+				h.armWrite(rapid.IntRange(0, 1).Draw(rt, "failOff"), rapid.SampledFrom([]int{sim.WTimeout, sim.WReset}).Draw(rt, "failKind"))
 			}
 			if state == "reconnect-pending" {
 				h.Current().Break(rapid.Bool().Draw(rt, "graceful"))
